@@ -83,6 +83,8 @@ type reader struct {
 }
 
 type world struct {
+	ts      *schema.TypeSystem
+	vts     *schema.TypeSystem // C19's vocabulary schema, compiled on first use in this world
 	t       *sim.Tape
 	s       *sim.Sim
 	o       *sim.Outcome
@@ -108,7 +110,9 @@ type Rec struct {
 	Blob []byte
 }
 
-var ts = func() *schema.TypeSystem {
+// newTS compiles the scenario's schema; every simulated world gets its own type system (and its
+// own copy of C19's vocabulary schema), so that a run cannot inherit damaged shared state.
+func newTS() *schema.TypeSystem {
 	t, err := ipld.LoadSchemaBytes([]byte(`
 type TMap {String:Int}
 type Rec struct {
@@ -121,7 +125,7 @@ type Rec struct {
 		panic(err)
 	}
 	return t
-}()
+}
 
 func safe(f func()) (pan string) {
 	defer func() {
@@ -264,7 +268,7 @@ func (S) RunTape(t *sim.Tape, st *sim.Stats, keepLog bool) *sim.Outcome {
 	s.Log.Keep = keepLog
 	s.MaxSteps = 300000
 	s.MaxQ = []int{0, 1, 4}[t.Choice(3, "cfg.maxq")]
-	w := &world{t: t, s: s, o: o, st: st}
+	w := &world{t: t, s: s, o: o, st: st, ts: newTS()}
 	w.cids = gen.SomeCids(t, 2)
 	ms := &memstore.Store{}
 	w.lsys = cidlink.DefaultLinkSystem()
@@ -396,12 +400,12 @@ func (w *world) spawn(k int) {
 		if r.Tags == nil {
 			r.Tags = []string{}
 		}
-		n := bindnode.Wrap(r, ts.TypeByName("Rec"))
+		n := bindnode.Wrap(r, w.ts.TypeByName("Rec"))
 		w.add(n, nil, "bindnode-wrap", nil)
 		w.add(n.Representation(), nil, "bindnode-wrap-repr", nil)
 		w.st.Inc("probe.typed_node_in_pool")
 	case 5: // bindnode builder
-		np := bindnode.Prototype((*Rec)(nil), ts.TypeByName("Rec"))
+		np := bindnode.Prototype((*Rec)(nil), w.ts.TypeByName("Rec"))
 		nb := np.NewBuilder()
 		v := model.MapV().Put("Name", model.StringV("built")).Put("N", model.IntV(int64(t.Choice(50, "rec.n")))).
 			Put("Tags", model.ListV(model.StringV("t"))).Put("Blob", model.BytesV(t.Sub("rec.blob").Bytes(t.Choice(30, "rec.bloblen"))))
@@ -459,7 +463,7 @@ func (w *world) spawn(k int) {
 		var name string
 		var tn schema.TypedNode
 		if pan := safe(func() {
-			name, tn = bindhist.Sample(t.Choice(bindhist.VocabSize(), "vocab.type"), t.Choice(32, "vocab.val"))
+			name, tn = bindhist.SampleIn(w.vocabTS(), t.Choice(bindhist.VocabSize(), "vocab.type"), t.Choice(32, "vocab.val"))
 		}); pan != "" {
 			return
 		}
@@ -471,7 +475,7 @@ func (w *world) spawn(k int) {
 		w.st.Inc("probe.typed_node_in_pool")
 		w.st.Inc("probe.vocabulary_node_in_pool")
 	case 9: // bindnode typed map, with a repeated key if the builder lets it through
-		np := bindnode.Prototype((*TMap)(nil), ts.TypeByName("TMap"))
+		np := bindnode.Prototype((*TMap)(nil), w.ts.TypeByName("TMap"))
 		nb := np.NewBuilder()
 		var node datamodel.Node
 		pan := safe(func() {
@@ -1172,4 +1176,11 @@ func (r *styledReader) Seek(off int64, whence int) (int64, error) {
 	}
 	r.pos = np
 	return np, nil
+}
+
+func (w *world) vocabTS() *schema.TypeSystem {
+	if w.vts == nil {
+		w.vts = bindhist.NewTypeSystem()
+	}
+	return w.vts
 }
